@@ -348,6 +348,52 @@ pub fn gen_macros<R: Src>(r: &mut R, cfg: &GenCfg) -> Program {
                trailing_comma: false,
             });
          }
+         // a macro whose body has a block expression with a shadowing `let` that reads the macro-local variable of the same
+         // spelling in its own initialiser: `A($p0, v), let $p1 = { let v = v + 1; v + 2 }`
+         let lt = da.cols[jr];
+         if matches!(lt, Ty::I32 | Ty::U32) && r.chance(60) {
+            let blk = Expr::LetBlock(
+               local.clone(),
+               Box::new(Expr::AddMod(Box::new(Expr::Var(local.clone())), 1, 6)),
+               Box::new(Expr::AddMod(Box::new(Expr::Var(local.clone())), 2, 6)),
+            );
+            prog.macros.push(MacroDef {
+               name: "hopb".into(),
+               params: vec![
+                  MacroParam { name: "p0".into(), is_ident: true, ty: ta, role: "soft".into() },
+                  MacroParam { name: "p1".into(), is_ident: true, ty: lt, role: "hard".into() },
+               ],
+               body: vec![mk(&da, ir, "p0", jr), BodyItem::Cond(Cond::Let(Pat::Var("$p1".into()), blk))],
+               head: vec![],
+               is_head: false,
+               trailing_comma: false,
+            });
+            for _ in 0..r.range(1, 2) {
+               let snapshot = prog.clone();
+               let mut ctx = RuleCtx::new(r, &snapshot, &cfg);
+               let (a, out) = (ctx.names.fresh(), ctx.names.fresh());
+               let mut body = vec![];
+               // half of the time a call-site variable spelled like the macro-local one is bound before the call
+               if r.chance(50) && a != local && out != local {
+                  body.push(BodyItem::Clause {
+                     rel: da.name.clone(),
+                     args: (0..da.cols.len()).map(|i| if i == jr { Arg::Var(local.clone()) } else { Arg::Wild }).collect(),
+                     conds: vec![],
+                  });
+                  ctx.bind(&local, lt);
+               }
+               body.push(BodyItem::MacroCall {
+                  name: "hopb".into(),
+                  args: vec![MacroArg { is_ident: true, ident: a.clone(), expr: None }, MacroArg { is_ident: true, ident: out.clone(), expr: None }],
+               });
+               ctx.bind(&a, ta);
+               ctx.bind(&out, lt);
+               let h = r.pick(&heads).clone();
+               let hargs = ctx.head_args(r, &h);
+               drop(ctx);
+               prog.rules.push(Rule { heads: vec![HeadItem::Clause { rel: h, args: hargs }], body });
+            }
+         }
          for _ in 0..r.range(2, 4) {
             let nm = if has_d && r.chance(45) { "hopd" } else { "hopm" };
             let call = |a: &str, b: &str| BodyItem::MacroCall {
